@@ -5,7 +5,7 @@ _g2l = importlib.util.module_from_spec(_spec); _spec.loader.exec_module(_g2l)
 T = "GeomV.C06."
 CFG = {
     "id": "C06",
-    "lean_modules": ["GeomV.C06.Proofs", "GeomV.C06.TextProofs", "GeomV.C06.CertProofs", "GeomV.C06.DecodeProofs", "GeomV.C06.ValueProofs", "GeomV.C06.UnmarshalProofs", "GeomV.C06.LitTextProofs", "GeomV.C06.Tie"],
+    "lean_modules": ["GeomV.C06.Proofs", "GeomV.C06.TextProofs", "GeomV.C06.CertProofs", "GeomV.C06.DecodeProofs", "GeomV.C06.ValueProofs", "GeomV.C06.UnmarshalProofs", "GeomV.C06.LitTextProofs", "GeomV.C06.RawProofs", "GeomV.C06.Tie"],
     "pregen": _g2l.pregen,
     "exe": "geomv_c06",
     "go_cmd": "c06",
@@ -20,7 +20,7 @@ CFG = {
                                  "C06_unmarshal_lit", "C06_decode_lit", "C06_decode_lit_overflow", "C06_decode_lit_skipped",
                                  "C06_decode_lit_sound", "C06_decode_lit_conservative",
                                  "C06_parse_factor", "C06_text_decode_lit", "C06_text_decode_driver",
-                                 "C06_text_decode_lit_sound", "C06_text_roundtrip_lit"]],
+                                 "C06_text_decode_lit_sound", "C06_text_roundtrip_lit", "C06_rawPn_sound", "C06_range_meaning"]],
     "trusted_base": [
         "Lean 4.33.0 kernel; axioms of every theorem printed by #print axioms must be within {propext, Classical.choice, Quot.sound}",
         "T1: lean/GeomV/C06/Gen.lean is regenerated from /repo/encoding/geojson/{encode,decode,geojson}.go on every run by "
@@ -40,6 +40,9 @@ CFG = {
         "last duplicate wins, null is a no-op for string fields, unknown members skipped = only scanned, number literals converted only inside a "
         "stored coordinates value, out-of-range literal there => saved UnmarshalTypeError): closed form proved (C06_unmarshal_lit), agreement with "
         "encoding/json exercised by generated documents (dec lines are judged with fromTreeL rangeConv)",
+        "the driver's literal scanner rawPn (Cert.lean) incl. its magnitude shortcuts for decimal exponents beyond +-5000 is proved to be IEEE "
+        "round-to-nearest-even of the literal's exact value (C06_rawPn_sound) and rangeConv = none exactly at IEEE overflow (C06_range_meaning); "
+        "geojson.go's error types (payload, Error() text) are regenerated from the source (tie_errorTexts) and compared exactly (emsg/dmsg lines)",
         "the reading of RFC 7946 section 3.1 into lean/GeomV/C06/Spec.lean",
         "harness/cmd/c06 + lean driver + lib/vcheck.py transport inputs faithfully",
     ],
